@@ -3,7 +3,6 @@ From Coq Require Import ZArith List Bool Lia Permutation QArith Lqa Psatz.
 From MV Require Import Geo.WindingDefs Geo.Winding Geo.MeasureDefs Bvh.BvhDefs Bvh.BvhModel.
 Import ListNotations.
 Local Open Scope Z_scope.
-Set Default Timeout 20.
 
 (* ================================================================== 1 == *)
 (* area: floor square roots bracket 2*area of every triangle *)
@@ -376,22 +375,50 @@ Qed.
 
 (* tri_dist2 returns the exact squared distance: it is attained by a pair of
    points of the two triangles and no pair of points is closer *)
-Lemma tri_dist2_exact_l t1 t2 d w1 w2 :
-  tri_dist2 t1 t2 = Some (d, (w1, w2)) ->
+Lemma tri_dist2_gen_exact gen t1 t2 d w1 w2 :
+  tri_dist2_gen gen t1 t2 = Some (d, (w1, w2)) ->
   bvalid w1 /\ bvalid w2 /\ d == qd2 (bpoint t1 w1) (bpoint t2 w2) /\
   forall u1 u2, bvalid u1 -> bvalid u2 -> d <= qd2 (bpoint t1 u1) (bpoint t2 u2).
 Proof.
-  unfold tri_dist2.
+  unfold tri_dist2_gen.
   set (c0 := (on_vert 0, on_vert 0)).
-  pose proof (best_inv t1 t2 (candidates t1 t2) (cand_d2 t1 t2 c0, c0)) as B.
+  pose proof (best_inv t1 t2 (gen t1 t2) (cand_d2 t1 t2 c0, c0)) as B.
   specialize (B (Qred_correct _)).
-  destruct (best t1 t2 (candidates t1 t2) (cand_d2 t1 t2 c0, c0)) as [d' [w1' w2']].
+  destruct (best t1 t2 (gen t1 t2) (cand_d2 t1 t2 c0, c0)) as [d' [w1' w2']].
   cbn [fst snd] in *.
   destruct (bvalidb w1' && bvalidb w2' && certificate t1 t2 (w1', w2')) eqn:E; [|discriminate].
   intros H; injection H as -> -> ->.
   rewrite !andb_true_iff in E. destruct E as [[V1 V2] C].
   split; [apply bvalidb_ok; assumption|]. split; [apply bvalidb_ok; assumption|]. split; [exact B|].
   intros u1 u2 U1 U2. rewrite B. apply (cert_lower t1 t2 (w1, w2) u1 u2 C U1 U2).
+Qed.
+
+Lemma tri_dist2_exact_l t1 t2 d w1 w2 :
+  tri_dist2 t1 t2 = Some (d, (w1, w2)) ->
+  bvalid w1 /\ bvalid w2 /\ d == qd2 (bpoint t1 w1) (bpoint t2 w2) /\
+  forall u1 u2, bvalid u1 -> bvalid u2 -> d <= qd2 (bpoint t1 u1) (bpoint t2 u2).
+Proof. apply tri_dist2_gen_exact. Qed.
+
+(* point-triangle distance: d is the exact squared distance from p to t *)
+Lemma pt_tri_dist2_exact_l p t d :
+  pt_tri_dist2 p t = Some d ->
+  (exists w, bvalid w /\ d == qd2 (qpt_of p) (bpoint (qtri_of t) w)) /\
+  forall u, bvalid u -> d <= qd2 (qpt_of p) (bpoint (qtri_of t) u).
+Proof.
+  unfold pt_tri_dist2. destruct (tri_dist2_gen cand_pt (qtri_of (p, p, p)) (qtri_of t)) as [[d' [w1 w2]]|] eqn:E; [|discriminate].
+  intros H; injection H as ->. destruct (tri_dist2_gen_exact _ _ _ _ _ _ E) as (V1 & V2 & D & L).
+  assert (P : forall w, bvalid w -> qd2 (bpoint (qtri_of (p, p, p)) w) (bpoint (qtri_of t) w2) == qd2 (qpt_of p) (bpoint (qtri_of t) w2)
+                                 /\ forall u, qd2 (bpoint (qtri_of (p, p, p)) w) (bpoint (qtri_of t) u) == qd2 (qpt_of p) (bpoint (qtri_of t) u)).
+  { intros [[a b] c] (_ & _ & _ & S). unfold qx, qy, qz in S; cbn [fst snd] in S.
+    assert (G : forall y, qd2 (bpoint (qtri_of (p, p, p)) (a, b, c)) y == qd2 (qpt_of p) y).
+    { intros [[y1 y2] y3]. destruct p as [[p1 p2] p3]. unfold qd2, qdot, qsub, bpoint, qtri_of, qpt_of, qx, qy, qz, px, py, pz; cbn [fst snd].
+      setoid_replace c with (1 - a - b) by (rewrite <- S; ring). ring. }
+    split; [apply G|intros; apply G]. }
+  split.
+  - exists w2. split; [exact V2|]. rewrite D. apply (P w1 V1).
+  - intros u U. specialize (L (1, 0, 0) u). 
+    assert (V0 : bvalid (1, 0, 0)) by (unfold bvalid, qx, qy, qz; cbn [fst snd]; repeat split; lra).
+    specialize (L V0 U). rewrite (proj2 (P (1,0,0) V0) u) in L. exact L.
 Qed.
 
 Lemma tri_dist2_zero_l t1 t2 d w u1 u2 :
@@ -403,3 +430,226 @@ Proof.
   specialize (L u1 u2 U1 U2). rewrite Z in L. pose proof (qd2_nonneg (bpoint t1 w1) (bpoint t2 w2)). rewrite <- E in H0. lra.
 Qed.
 Local Close Scope Q_scope.
+
+(* with C14: the traversal reports every close pair *)
+Local Open Scope Z_scope.
+Lemma mingap_no_pair_missed_l children bbox n (tris : Z -> tri) t2 L qi :
+    wf_check children bbox n = true ->
+    (forall i, 0 <= i < n -> bbox (leaf2node i) = tri_box (tris i)) ->
+    0 <= L ->
+    exists res, find_collision children bbox false (fun b => overlap b (inflate (tri_box t2) L)) qi (Z.to_nat (2 * n)) = Some res /\
+      forall i l1 w1 l2 w2, 0 <= i < n -> weights_ok l1 w1 -> weights_ok l2 w2 ->
+        norm2 (hdiff (comb (tris i) l1) w1 (comb t2 l2) w2) < (L * (w1 * w2)) * (L * (w1 * w2)) -> In i res.
+Proof.
+  intros W B HL.
+  destruct (wf_check_collisions_exact children bbox n false (fun b => overlap b (inflate (tri_box t2) L)) qi
+              (fun a b => overlap_union_l a b _) (fun a b => overlap_union_r a b _) W) as (res & F & _ & I).
+  exists res. split; [exact F|]. intros i l1 w1 l2 w2 Hi H1 H2 D. apply I. split; [exact Hi|]. split.
+  - rewrite (B i Hi).
+    apply (mingap_candidates_complete_l (tri_box (tris i)) (tri_box t2) (comb (tris i) l1) w1 (comb t2 l2) w2 L);
+      try assumption; try (apply comb_in_box; assumption).
+    + apply H1. + apply H2.
+  - intros [X _]. discriminate.
+Qed.
+
+(* ================================================================== 4 == *)
+Lemma conn_incl es es' x y : (forall e, In e es -> In e es') -> conn es x y -> conn es' x y.
+Proof.
+  intros H C. induction C.
+  - apply conn_refl. - apply conn_edge; auto. - apply conn_sym; auto. - eapply conn_trans; eauto.
+Qed.
+
+(* adding one edge (a,b): the new relation in terms of the old one *)
+Lemma conn_add_edge es a b x y :
+  conn ((a, b) :: es) x y <->
+  conn es x y \/ (conn es x a /\ conn es b y) \/ (conn es x b /\ conn es a y).
+Proof.
+  split.
+  - intros C. induction C as [x|p q I|x y C IH|x y z C1 IH1 C2 IH2].
+    + left. apply conn_refl.
+    + destruct I as [E|I]; [injection E as <- <-; right; left; split; apply conn_refl|left; apply conn_edge; exact I].
+    + destruct IH as [H|[[H1 H2]|[H1 H2]]].
+      * left. apply conn_sym, H.
+      * right; right. split; apply conn_sym; assumption.
+      * right; left. split; apply conn_sym; assumption.
+    + assert (T := conn_trans es). assert (S := conn_sym es).
+      destruct IH1 as [H|[[H1 H2]|[H1 H2]]], IH2 as [K|[[K1 K2]|[K1 K2]]]; eauto 7.
+  - assert (I : forall u v, conn es u v -> conn ((a, b) :: es) u v) by (intros; eapply conn_incl; [|eassumption]; intros; right; assumption).
+    assert (AB : conn ((a, b) :: es) a b) by (apply conn_edge; left; reflexivity).
+    intros [H|[[H1 H2]|[H1 H2]]].
+    + apply I, H.
+    + eapply conn_trans; [apply I, H1|]. eapply conn_trans; [exact AB|apply I, H2].
+    + eapply conn_trans; [apply I, H1|]. eapply conn_trans; [apply conn_sym, AB|apply I, H2].
+Qed.
+
+Definition in_range (n : nat) (v : Z) : Prop := 0 <= v < Z.of_nat n.
+
+Lemma lab_map g l v : in_range (length l) v -> lab (map g l) v = g (lab l v).
+Proof.
+  intros [H1 H2]. unfold lab. rewrite (nth_indep _ (-1) (g (-1))) by (rewrite map_length; lia). apply map_nth.
+Qed.
+
+Lemma unite_length l a b : length (unite l a b) = length l.
+Proof. unfold unite. destruct (lab l a =? lab l b); [reflexivity|apply map_length]. Qed.
+
+Lemma lab_unite l a b v : in_range (length l) v ->
+  lab (unite l a b) v = if lab l v =? lab l a then lab l b else lab l v.
+Proof.
+  intros R. unfold unite. destruct (lab l a =? lab l b) eqn:E.
+  - apply Z.eqb_eq in E. destruct (lab l v =? lab l a) eqn:F; [apply Z.eqb_eq in F; congruence|reflexivity].
+  - rewrite (lab_map _ l v R). reflexivity.
+Qed.
+
+Lemma lab_init n v : in_range n v -> lab (init_labels n) v = v.
+Proof.
+  intros [H1 H2]. unfold lab, init_labels.
+  rewrite (nth_indep _ (-1) (Z.of_nat 0)) by (rewrite map_length, seq_length; lia).
+  rewrite map_nth, seq_nth by lia. lia.
+Qed.
+
+Definition uf_inv (n : nat) (l : labels) (es : list (Z * Z)) : Prop :=
+  length l = n /\ forall u v, in_range n u -> in_range n v -> (lab l u = lab l v <-> conn es u v).
+
+Lemma conn_in_range n es x y : (forall a b, In (a, b) es -> in_range n a /\ in_range n b) ->
+  conn es x y -> x = y \/ (in_range n x /\ in_range n y).
+Proof.
+  intros R C. induction C as [x|p q I|x y C IH|x y z C1 IH1 C2 IH2].
+  - left; reflexivity.
+  - right. apply R, I.
+  - destruct IH as [->|[? ?]]; auto.
+  - destruct IH1 as [->|[? ?]], IH2 as [->|[? ?]]; auto.
+Qed.
+
+Lemma conn_nil x y : conn [] x y -> x = y.
+Proof. intros C. induction C as [x|p q I|x y C IH|x y z C1 IH1 C2 IH2]; try congruence. destruct I. Qed.
+
+Lemma uf_step n l es a b : in_range n a -> in_range n b -> uf_inv n l es -> uf_inv n (unite l a b) ((a, b) :: es).
+Proof.
+  intros Ra Rb [L I]. split; [rewrite unite_length; exact L|].
+  intros u v Ru Rv. rewrite conn_add_edge.
+  rewrite !lab_unite by (rewrite L; assumption).
+  rewrite <- (I u v Ru Rv), <- (I u a Ru Ra), <- (I b v Rb Rv), <- (I u b Ru Rb), <- (I a v Ra Rv).
+  destruct (Z.eqb_spec (lab l u) (lab l a)), (Z.eqb_spec (lab l v) (lab l a)); split; intros; try lia;
+    repeat match goal with H : _ \/ _ |- _ => destruct H | H : _ /\ _ |- _ => destruct H end; try lia; try congruence.
+Qed.
+
+Lemma uf_fold n es : forall l done,
+  (forall a b, In (a, b) es -> in_range n a /\ in_range n b) ->
+  uf_inv n l done -> uf_inv n (fold_left (fun l e => unite l (fst e) (snd e)) es l) (rev es ++ done).
+Proof.
+  induction es as [|[a b] es IH]; intros l done R I; [exact I|].
+  cbn [fold_left rev fst snd]. rewrite <- app_assoc. cbn [app].
+  apply IH; [intros; apply R; right; assumption|].
+  destruct (R a b (or_introl eq_refl)). apply uf_step; assumption.
+Qed.
+
+(* the labels computed by the union-find over the edge list are exactly the
+   connected components of the edge graph *)
+Lemma uf_edges_conn n es u v :
+  (forall a b, In (a, b) es -> in_range n a /\ in_range n b) -> in_range n u -> in_range n v ->
+  (lab (uf_edges n es) u = lab (uf_edges n es) v <-> conn es u v).
+Proof.
+  intros R Ru Rv. unfold uf_edges.
+  assert (I0 : uf_inv n (init_labels n) []).
+  { split; [unfold init_labels; rewrite map_length, seq_length; reflexivity|].
+    intros x y Rx Ry. rewrite !lab_init by assumption. split; [intros ->; apply conn_refl|].
+    intros C. apply conn_nil in C. congruence. }
+  destruct (uf_fold n es _ _ R I0) as [_ I]. rewrite (I u v Ru Rv). rewrite app_nil_r.
+  split; apply conn_incl; intros e; rewrite <- in_rev; auto.
+Qed.
+
+(* the three corners of a face carry the same label *)
+Lemma face_label_uniform n ts a b c :
+  (forall p q, In (p, q) (mesh_edges ts) -> in_range n p /\ in_range n q) -> In (a, b, c) ts ->
+  lab (uf_edges n (mesh_edges ts)) a = lab (uf_edges n (mesh_edges ts)) b /\
+  lab (uf_edges n (mesh_edges ts)) b = lab (uf_edges n (mesh_edges ts)) c.
+Proof.
+  intros R I.
+  assert (E : forall p q, In (p, q) (itri_edges (a, b, c)) -> In (p, q) (mesh_edges ts)).
+  { intros p q H. unfold mesh_edges. apply in_flat_map. exists (a, b, c). split; assumption. }
+  assert (Eab := E a b (or_introl eq_refl)). assert (Ebc := E b c (or_intror (or_introl eq_refl))).
+  destruct (R _ _ Eab), (R _ _ Ebc).
+  split; apply uf_edges_conn; try assumption; apply conn_edge; assumption.
+Qed.
+
+(* faces are partitioned and volume6 is additive over the partition *)
+Lemma dedup_in l x : In x (dedup l) <-> In x l.
+Proof.
+  induction l as [|y l IH]; [reflexivity|]. cbn [dedup]. destruct (existsb (Z.eqb y) l) eqn:E.
+  - rewrite IH. split; [right; assumption|]. intros [->|H]; [|exact H].
+    apply existsb_exists in E. destruct E as (z & Hz & Ez). apply Z.eqb_eq in Ez. subst z. exact Hz.
+  - cbn [In]. rewrite IH. reflexivity.
+Qed.
+Lemma dedup_nodup l : NoDup (dedup l).
+Proof.
+  induction l as [|y l IH]; [constructor|]. cbn [dedup]. destruct (existsb (Z.eqb y) l) eqn:E; [exact IH|].
+  constructor; [|exact IH]. rewrite dedup_in. intros H.
+  assert (existsb (Z.eqb y) l = true) by (apply existsb_exists; exists y; split; [exact H|apply Z.eqb_refl]). congruence.
+Qed.
+
+Section Partition.
+  Variable key : itri -> Z.
+  Variable F : itri -> Z.
+  Definition Fsum (l : list itri) : Z := fold_right (fun t acc => F t + acc) 0 l.
+  Definition part (ts : list itri) (c : Z) := filter (fun t => key t =? c) ts.
+
+  Lemma sum_indicator cs x v : NoDup cs -> In x cs ->
+    fold_right (fun c acc => (if x =? c then v else 0) + acc) 0 cs = v.
+  Proof.
+    induction cs as [|c cs IH]; [intros _ []|]. intros N I. inversion N as [|? ? Nc N']; subst.
+    cbn [fold_right]. destruct I as [->|I].
+    - rewrite Z.eqb_refl.
+      assert (Z0 : fold_right (fun c acc => (if x =? c then v else 0) + acc) 0 cs = 0).
+      { clear IH N N'. induction cs as [|d cs IH]; [reflexivity|]. cbn [fold_right].
+        destruct (Z.eqb_spec x d); [subst; exfalso; apply Nc; left; reflexivity|].
+        rewrite IH; [lia|]. intros H; apply Nc; right; exact H. }
+      lia.
+    - destruct (Z.eqb_spec x c); [subst; contradiction|]. rewrite IH by assumption. lia.
+  Qed.
+
+  Lemma part_cons t ts c : Fsum (part (t :: ts) c) = (if key t =? c then F t else 0) + Fsum (part ts c).
+  Proof. unfold Fsum, part. cbn [filter]. destruct (key t =? c); cbn [fold_right]; lia. Qed.
+
+  Lemma partition_sum ts cs : NoDup cs -> (forall t, In t ts -> In (key t) cs) ->
+    fold_right (fun c acc => Fsum (part ts c) + acc) 0 cs = Fsum ts.
+  Proof.
+    intros N. induction ts as [|t ts IH]; intros H.
+    - clear N H. induction cs as [|c cs IHc]; [reflexivity|]. cbn [fold_right]. rewrite IHc. reflexivity.
+    - assert (E : forall cs', fold_right (fun c acc => Fsum (part (t :: ts) c) + acc) 0 cs' =
+                    fold_right (fun c acc => (if key t =? c then F t else 0) + acc) 0 cs' +
+                    fold_right (fun c acc => Fsum (part ts c) + acc) 0 cs').
+      { induction cs' as [|c cs' IHc]; [reflexivity|]. cbn [fold_right]. rewrite IHc, part_cons. lia. }
+      rewrite E, IH by (intros; apply H; right; assumption).
+      rewrite (sum_indicator cs (key t) (F t) N (H t (or_introl eq_refl))). reflexivity.
+  Qed.
+End Partition.
+
+Lemma volume6_as_Fsum pos l : volume6 (map (geom pos) l) = Fsum (fun t => volume6 [geom pos t]) l.
+Proof.
+  induction l as [|[[a b] c] l IH]; [reflexivity|]. cbn [map Fsum fold_right]. fold (Fsum (fun t => volume6 [geom pos t]) l).
+  rewrite <- IH. cbn [geom]. rewrite volume6_cons. cbn [volume6 fold_right]. lia.
+Qed.
+
+(* Decompose: the volumes of the parts sum to the volume of the whole, exactly *)
+Lemma decompose_volume_l n ts pos :
+  fold_right (fun part acc => volume6 (map (geom pos) part) + acc) 0 (decompose n ts) = volume6 (map (geom pos) ts).
+Proof.
+  unfold decompose. set (l := uf_edges n (mesh_edges ts)).
+  rewrite volume6_as_Fsum.
+  rewrite <- (partition_sum (fun t => lab l (itri_v0 t)) (fun t => volume6 [geom pos t]) ts (comp_labels l ts)).
+  - unfold comp_faces, part. induction (comp_labels l ts) as [|c cs IH]; [reflexivity|].
+    cbn [map fold_right]. rewrite IH, volume6_as_Fsum. reflexivity.
+  - apply dedup_nodup.
+  - intros t I. unfold comp_labels. rewrite dedup_in. apply in_map_iff. exists t. split; [reflexivity|exact I].
+Qed.
+
+(* every face lands in exactly one part *)
+Lemma decompose_partition_l n ts t : In t ts ->
+  exists c, In c (comp_labels (uf_edges n (mesh_edges ts)) ts) /\ In t (comp_faces (uf_edges n (mesh_edges ts)) ts c) /\
+    forall c', In t (comp_faces (uf_edges n (mesh_edges ts)) ts c') -> c' = c.
+Proof.
+  intros I. set (l := uf_edges n (mesh_edges ts)). exists (lab l (itri_v0 t)). split; [|split].
+  - unfold comp_labels. rewrite dedup_in. apply in_map_iff. exists t. split; [reflexivity|exact I].
+  - unfold comp_faces. apply filter_In. split; [exact I|apply Z.eqb_refl].
+  - intros c' H. unfold comp_faces in H. apply filter_In in H. destruct H as [_ H]. apply Z.eqb_eq in H. lia.
+Qed.
